@@ -10,6 +10,10 @@
 (*   Build21 / Export21 / Parse21 / SetUserData / SetConstraints     certificate block v2.1          *)
 (*   Build1  / Export1  / Parse1  / SetImageLength                   certificate block v1            *)
 (*   StartT / SetSlot / AppendSlot / ClearT / AddCertificate / SetAll / ComputeT   the CONSTRUCTION HISTORY of one *)
+(*   Rekey / SetCa                               ... and the IN-PLACE changes of a table that was already read: an  *)
+(*                                               entry replaced in the list, the key of a record replaced, the CA   *)
+(*                                               flag of the records changed - the value READ AFTER ANY STEP is the *)
+(*                                               documented construction over what the table holds THEN             *)
 (*                                               table object (RKHTv1.set_rkh, CertBlockV1.set_root_key_hash *)
 (*                                               / add_certificate, HAB SrkTable.append / t[i] = item, AHAB  *)
 (*                                               SRKTable.add_record / clear): the value after ANY history   *)
@@ -326,10 +330,14 @@ SetImageLength(n) ==
 \*   cb1    CertBlockV1            set_root_key_hash(index, certificate | hash)  any number of times (a later write REPLACES the slot);
 \*                                 add_certificate(cert)                         empty slots are 32 x 00
 \*   hab    image.secret.SrkTable  append(item),  table[i] = item               a list: append at the end, replace an existing entry
-\*   ahab   ahab_srk.SRKTable      add_record(public key, flags),  clear()      a list: append at the end, empty it
+\*   ahab   ahab_srk.SRKTable      add_record(public key, flags),  clear()      a list: append at the end, empty it;
+\*                                 srk_records[i] = record                       replace an existing entry of the (public) record list
 \*   ahab2  ahab_srk.SRKTableV2    (the same methods, inherited)
 \*   pfr1 / pfr21  pfr.CMPA of a cert_block_1 / cert_block_21 family:  export(keys = the WHOLE list)  the same page object is exported
 \*                                 again and again, each time with the key list of the moment
+\* The records of the three SRK tables are objects with public fields: the key material of a record can be replaced in place
+\* (Rekey: HAB SrkItem.modulus / x_coordinate .., AHAB SRKRecord.crypto_params / src_key / srk_data - the record keeps its type) and so can
+\* its CA flag (SetCa: HAB SrkItem.flag, AHAB SRKRecord.srk_flags).  The table object hands out the value of what it holds - and exports - NOW.
 \* (RKHTv21 / CertBlockV21 / the RoT meta of debug credentials have no incremental builder: the constructor takes the whole list.)
 \* The object comes to exist empty ("new"), from a key list (constructor / from_keys: "keys") or by parsing an exported table ("parsed");
 \* a PFR page also by loading a configuration that carries a ROTKH ("cfg").
@@ -339,7 +347,7 @@ RotOfFl(fl) == CASE fl \in {"rkht1", "cb1", "pfr1"} -> "cert_block_1" [] fl = "p
 Indexed(fl) == fl \in {"rkht1", "cb1"}
 Whole(fl)   == fl \in {"pfr1", "pfr21"}                     \* the object is handed the whole key list in one call
 Origins(fl) == CASE fl = "rkht1" -> {"new", "keys", "parsed"} [] fl = "cb1" -> {"new", "parsed"} [] fl = "hab" -> {"new", "parsed"}
-                 [] Whole(fl) -> {"new", "cfg", "parsed"} [] OTHER -> {"new", "keys", "parsed"}
+                 [] Whole(fl) -> {"new", "cfg", "parsed"} [] OTHER -> {"new", "keys", "parsed", "rot"}     \* "rot": the table the front end Rot(family, keys) built and holds
 \* a PFR page object that is not new HELD A VALUE before: the ROTKH of another key list (`init`) - possibly of another hash width than the
 \* one it is exported with next - that came with the configuration it was loaded from ("cfg") or with the binary it parsed ("parsed")
 Held(origin) == origin \in {"cfg", "parsed"}
@@ -371,6 +379,8 @@ InitOK(fl, origin, init, cert) ==
   /\ (origin = "new" => init = <<>>)
   /\ (Held(origin) => TabLegal([fl |-> fl, slots |-> init, cert |-> NoKey]))                  \* what was parsed / loaded is an exported, legal table
   /\ (origin = "keys" => Len(init) >= 1 /\ \A i \in 1..Len(init) : init[i].k.cls \in Classes)
+  /\ (origin = "rot" => /\ TabLegal([fl |-> fl, slots |-> init, cert |-> NoKey])                 \* the front end takes a whole, legal key list
+                         /\ \A i \in 1..Len(init) : ~init[i].ca)                                 \* ... of public keys
   /\ (IF fl = "cb1" /\ origin = "parsed" THEN \E i \in 1..Len(init) : init[i].k = cert ELSE cert = NoKey)   \* a parsed block has its certificate
 \* the bytes a "parsed" object is parsed from: the documented table over the key list it holds (for a v1 block: the table inside the block)
 \* (a PFR page: the VALUE over the key list, which the ROTKH field held - zero padded to the width of the field)
@@ -385,7 +395,7 @@ StartT(fl, origin, init, cert) ==
 \* write slot i (1-based; the API counts from 0): whatever the slot held before is REPLACED, no other slot changes
 SetSlotOK(i, k, form) ==
   /\ tab.fl # "none" /\ form \in Forms(tab.fl) /\ k.cls \in Classes
-  /\ (IF Indexed(tab.fl) THEN i \in 1..4 ELSE tab.fl = "hab" /\ i \in 1..Len(tab.slots))     \* table[i] = item: an existing entry only
+  /\ (IF Indexed(tab.fl) THEN i \in 1..4 ELSE tab.fl \in {"hab", "ahab", "ahab2"} /\ i \in 1..Len(tab.slots))   \* table[i] = item: an existing entry only
 SetSlot(i, k, form) ==
   /\ SetSlotOK(i, k, form)
   /\ tab' = [tab EXCEPT !.slots[i] = Slot(k, CaOf(tab.fl, form))]
@@ -408,6 +418,21 @@ SetAll(ks) ==                                               \* the next export i
   /\ SetAllOK(ks)
   /\ tab' = [tab EXCEPT !.slots = [i \in 1..Len(ks) |-> Slot(ks[i], FALSE)]]
   /\ act' = [a |-> "SetAll", keys |-> ks]
+  /\ UNCHANGED <<fs, obj, out>>
+\* in-place changes of a record of an SRK table: its key (the record keeps its type - algorithm and size - and its flag) ...
+IsList(fl) == fl \in {"hab", "ahab", "ahab2"}
+RekeyOK(i, k) == IsList(tab.fl) /\ i \in 1..Len(tab.slots) /\ k.cls \in Classes /\ k.cls = tab.slots[i].k.cls
+Rekey(i, k) ==
+  /\ RekeyOK(i, k)
+  /\ tab' = [tab EXCEPT !.slots[i] = Slot(k, @.ca)]
+  /\ act' = [a |-> "Rekey", i |-> i, k |-> k]
+  /\ UNCHANGED <<fs, obj, out>>
+\* ... its CA flag: of record i, or (i = 0) of every record of the table (an AHAB table has ONE flag)
+SetCaOK(i, ca) == IsList(tab.fl) /\ ca \in BOOLEAN /\ (i = 0 \/ (tab.fl = "hab" /\ i \in 1..Len(tab.slots)))
+SetCa(i, ca) ==
+  /\ SetCaOK(i, ca)
+  /\ tab' = [tab EXCEPT !.slots = [j \in 1..Len(@) |-> IF i = 0 \/ j = i THEN Slot(@[j].k, ca) ELSE @[j]]]
+  /\ act' = [a |-> "SetCa", i |-> i, ca |-> ca]
   /\ UNCHANGED <<fs, obj, out>>
 AddCertOK(k) == tab.fl = "cb1" /\ tab.cert = NoKey /\ IsRsa(k.cls)
 AddCertificate(k) ==                                        \* the (single, self-signed) root certificate of a v1 block; chains are C02's
